@@ -367,7 +367,10 @@ def _partial(v, st):
         return False
     if isinstance(v, base.RawTokenModel):
         return len(toks) > 1
-    return v.first_token is not toks[0] or v.last_token is not toks[-1]
+    try:
+        return v.first_token is not toks[0] or v.last_token is not toks[-1]
+    except Exception:   # the harness only inspects; what the accessor does wrong is judged where the code under test calls it
+        return False
 
 
 def arg_info(root, op, prepared):
@@ -540,7 +543,10 @@ def _run_history(text, auto_claim, ops, oracles, *, need_struct=False):
             prepared = edits.prepare_op(root, op)
         except edits.DonorError:
             continue
-        extra = arg_info(root, op, prepared)
+        try:
+            extra = arg_info(root, op, prepared)
+        except Exception:
+            extra = {}
         twin = None
         if 'twin' in oracles:
             try:
@@ -656,7 +662,10 @@ def _session(ctx, r, root, text, auto_claim, lf, nops, oracles, syntax_preservin
                 continue
             for ob in observers:
                 ob.before(root, op, prepared, {'text': text, 'auto_claim': auto_claim, 'ops': ops + [op], 'lf': lf})
-            extra = arg_info(root, op, prepared)
+            try:
+                extra = arg_info(root, op, prepared)
+            except Exception:
+                extra = {}
             twin = None
             if 'twin' in oracles:
                 try:
